@@ -266,7 +266,8 @@ func trimGoStack(s string) string {
 }
 
 func (r *e1run) get(path string) *respRec {
-	if r.query != "" && strings.HasSuffix(strings.SplitN(path, "?", 2)[0], ".m3u8") {
+	if r.query != "" && strings.HasSuffix(strings.SplitN(path, "?", 2)[0], ".m3u8") &&
+		!(strings.Contains(r.query, "\"") && strings.HasSuffix(strings.SplitN(path, "?", 2)[0], "index.m3u8")) {
 		if strings.Contains(path, "?") {
 			path += "&" + r.query
 		} else {
